@@ -434,6 +434,16 @@ func propC20(j *Job) {
 			}
 		}
 	}
+	// several goroutines each read one message from the same stream; a retransmission fills a
+	// gap and makes as many messages readable at once as there are readers
+	for _, mode := range modes {
+		for _, n := range []int{2, 3} {
+			j.Explore(fmt.Sprintf("RG/%s/readers%d", mode.Name, n), readersGapScenario(withBase(mode.A, 228, 0xFFFFFFFE, 4000), withBase(mode.B, 228, 0xFFFFFFF0, 4000), n), Budget{D: 1}, nil)
+			if j.capped() {
+				break
+			}
+		}
+	}
 	if cyc := lockCycle(j.Stats.LockOrder); cyc != nil {
 		j.failSeq("lock-order", "lock-order-graph", fmt.Sprintf("the lock acquisition orders observed over all explored executions form a cycle: %s (a potential deadlock even if no explored schedule closed it)", strings.Join(cyc, " -> ")), nil)
 	}
@@ -443,4 +453,82 @@ func propC20(j *Job) {
 	}
 	sort.Strings(edges)
 	j.extra("lock_order_edges", strings.Join(edges, ", "))
+}
+
+// readersGapScenario: n goroutines are blocked in ReadSCTP on one stream, each wants exactly one
+// message.  A writes n messages in separate packets; the first transmission of the first one is
+// lost, so the others wait in the reassembly queue and the retransmission makes all n readable
+// in one step.  Every reader gets its message.
+func readersGapScenario(a, b epCfg, nReaders int) *Scenario {
+	return &Scenario{
+		Name:    "readers-gap",
+		Horizon: 120 * time.Second,
+		Setup: func(m *Sim) {
+			killed := false
+			m.W.killFn = func(p *wpkt) bool {
+				if killed || p.from != 0 || p.dec == nil {
+					return false
+				}
+				for _, c := range p.dec.Chunks {
+					if (c.Typ == wDATA || c.Typ == wIDATA) && len(c.Data) > 0 {
+						killed = true
+						return true
+					}
+				}
+				return false
+			}
+		},
+		Body: func(m *Sim) {
+			if !m.Connect(a, b) {
+				m.Failf("connect", "handshake failed")
+				m.closeFailedTransports()
+				m.CloseBoth()
+				return
+			}
+			sa, _ := m.As[0].OpenStream(1, PayloadTypeWebRTCBinary)
+			sb, _ := m.As[1].OpenStream(1, PayloadTypeWebRTCBinary)
+			m.streamsSeen = append(m.streamsSeen, sa, sb)
+			got := map[string]string{}
+			var ts []*vsched.Thread
+			for i := 0; i < nReaders; i++ {
+				name := fmt.Sprintf("rd%d", i)
+				ts = append(ts, m.Go(name, func() {
+					buf := make([]byte, 400)
+					n, _, err := sb.ReadSCTP(buf)
+					if err != nil {
+						return
+					}
+					m.mu.Lock()
+					got[name] = string(buf[:n])
+					m.mu.Unlock()
+				}))
+			}
+			m.S.WaitIdle()
+			for i := 0; i < nReaders; i++ {
+				if _, err := sa.WriteSCTP(payload(1, i, 150+i), PayloadTypeWebRTCBinary); err != nil {
+					m.Failf("write", "write %d: %v", i, err)
+				}
+				m.Sleep(5 * time.Millisecond)
+			}
+			ok := m.WaitUntil("readers-back", 20*time.Second, func() bool {
+				for _, t := range ts {
+					if !t.Done {
+						return false
+					}
+				}
+				return true
+			})
+			if !ok {
+				readable := sb.reassemblyQueue.isReadable()
+				m.mu.Lock()
+				n := len(got)
+				m.mu.Unlock()
+				m.Failf("read.lost-wakeup", "%d readers blocked on one stream, %d messages delivered to the stream: only %d readers returned within 20 s (a message is readable: %v)", nReaders, nReaders, n, readable)
+			}
+			m.Observe("back=%d", len(got))
+			m.CloseBoth()
+			m.Join(ts...)
+		},
+		Final: func(m *Sim, x *Exec) { generalVerdicts(m, x, true) },
+	}
 }
